@@ -172,7 +172,13 @@ def run_program(case, drive, twice=False):
     try:
         h.initialize()
         stale = None
-        if twice:
+        if twice == "abandon":
+            # the earlier replication is abandoned half-way (paused, cleanup()) and the simulator is used again
+            h.start_pause_after(3, ["start"])
+            h.sim.cleanup()
+            h.rec = Recorder()
+            h.initialize()
+        elif twice:
             h.run_piece(["start"])
             stale = (h.rec, [h.model.stats[k] for k in sorted(h.model.stats)] if getattr(h.model, "stats", None) else [])
             h.rec = Recorder()
